@@ -274,6 +274,32 @@ def run(repo: Repo, ctx) -> None:
         if f not in params:
             raise AnalysisError(f'DepGraphEntry.__init__ has no `{f}`')
 
+    # ---- R3b deterministic traversal -------------------------------------
+    # every container whose iteration order drives the traversal is
+    # insertion-ordered (OrderedSet / list / dict), never a hash-ordered set
+    for mp in ('adj', 'weak_adj', 'loop_control'):
+        inits = [n for n in sort_ex.node.body
+                 if isinstance(n, (ast.Assign, ast.AnnAssign))
+                 and norm(n.targets[0] if isinstance(n, ast.Assign)
+                          else n.target) == mp]
+        ok = len(inits) == 1 and norm(inits[0].value) == \
+            'defaultdict(OrderedSet)'
+        ctx.ob('C20.R3', f'{sort_ex.qualname}:ordered-adjacency={mp}', ok,
+               f'adjacency map {mp} is initialised as '
+               f'{norm(inits[0].value) if inits else None}: iterating a '
+               f'hash-ordered set makes the result depend on the hash seed '
+               f'(not deterministic for a given input)', sort_ex.loc,
+               sample='defaultdict(OrderedSet)')
+    vis = [n for n in sort_ex.node.body
+           if isinstance(n, (ast.Assign, ast.AnnAssign))
+           and norm(n.targets[0] if isinstance(n, ast.Assign)
+                    else n.target) == 'visiting']
+    ok = len(vis) == 1 and norm(vis[0].value) == 'OrderedSet()'
+    ctx.ob('C20.R3', f'{sort_ex.qualname}:ordered-visiting', ok,
+           '`visiting` is not an OrderedSet: the item reported in a '
+           'CycleError would depend on hash order', sort_ex.loc,
+           sample='OrderedSet()')
+
     # ---- R4 driver --------------------------------------------------
     ctx.floor('C20.R4', 2)
     driver = [st for st in sort_ex.node.body if isinstance(st, ast.For)
